@@ -140,6 +140,19 @@ theorem C02_exact_payment_base (w w' : World) (sender : Addr) (isAdmin : Bool) (
   rw [mulFloor_bps] at hf hnz
   exact ⟨hf, hnz⟩
 
+/-- base minter: anything but exactly that one coin is rejected (in particular every payment when the price is zero) -/
+theorem C02_base_other_payment_rejected (w : World) (sender : Addr) (isAdmin : Bool) (funds : List Coin) (allowed : Bool)
+    (hb : w.v.family = .base) (hne : funds ≠ [⟨NATIVE, w.m.mintPrice.amount * w.f.mintFeeBps / 10000⟩] ∨
+      w.m.mintPrice.amount * w.f.mintFeeBps / 10000 = 0) :
+    ∃ e, mint w sender isAdmin funds allowed = .error e := by
+  cases hm : mint w sender isAdmin funds allowed with
+  | error e => exact ⟨e, rfl⟩
+  | ok w' =>
+    obtain ⟨hf, hnz⟩ := C02_exact_payment_base w w' sender isAdmin funds allowed hb hm
+    rcases hne with h | h
+    · exact absurd hf h
+    · exact absurd h hnz
+
 /-- "any other amount, denom or extra coin is rejected" -/
 theorem C02_other_payment_rejected (w : World) (sender : Addr) (isAdmin : Bool) (funds : List Coin) (allowed : Bool)
     (price : Coin) (hs : IsSale w.v isAdmin) (hp : selectPrice w.v w.f w.m w.now isAdmin = .ok price)
